@@ -256,5 +256,9 @@ pub fn run(ctx: &Ctx) {
 }
 
 pub fn replay(j: &serde_json::Value) -> Option<Verdict> {
+    if let Some(b) = j.get("fuzz_bytes").and_then(|b| b.as_array()) {
+        let bytes: Vec<u8> = b.iter().filter_map(|x| x.as_u64().map(|x| x as u8)).collect();
+        return Some(check(&super::c01::random_case(&bytes, 7)));
+    }
     EvalCase::from_json(j).map(|c| check(&c))
 }
